@@ -183,6 +183,8 @@ func runC04(c *Ctx) {
 	c03SubsetByPair(c, "SUBSET-BY-PAIR")
 	c03IndexAccumulates(c, "INDEX-ACCUMULATES")
 	c04SiblingSkipGuards(c, "SIBLING-SKIP-GUARDS")
+	c.Rule("FILES-COMPLETE", "every input file (current and previous) is converted for the rule handlers whatever the parallelism", 1)
+	goAggRule(c, "FILES-COMPLETE", func(rel string) bool { return rel == "private/bufpkg/bufprotosource" })
 }
 
 // triEvalBool evaluates a boolean expression with the given identifiers bound to constants.
